@@ -125,9 +125,11 @@ impl<'a> Gen<'a> {
             },
             1 => {
                 let mut d = self.rng.pick(&dirs).clone();
-                let k = self.rng.range(16, 40);
+                // (sometimes far deeper: thresholds such as 64 or 100 levels)
+                let very = self.rng.chance(3, 10);
+                let k = if very { self.rng.range(60, 140) } else { self.rng.range(16, 40) };
                 for i in 0..k {
-                    let nm = if i % 3 == 0 { "d".to_string() } else { self.names[i % self.names.len()].to_string() };
+                    let nm = if very || i % 3 == 0 { "d".to_string() } else { self.names[i % self.names.len()].to_string() };
                     let path = join(&d, &nm);
                     if tree.iter().any(|t| t.path == path) {
                         break;
@@ -149,6 +151,32 @@ impl<'a> Gen<'a> {
             };
             for _ in 0..nl {
                 self.add_link(&mut tree, links);
+            }
+            // rarely a long chain of links (link -> link -> ... -> a directory or file)
+            if self.rng.chance(1, 60) {
+                let targets: Vec<String> = tree.iter().filter(|n| !matches!(n.kind, Kind::Link { .. })).map(|n| n.path.clone()).collect();
+                let par = self.rng.pick(&dirs).clone();
+                if !targets.is_empty() && !tree.iter().any(|t| t.path == join(&par, "c0")) {
+                    let end = self.rng.pick(&targets).clone();
+                    let k = self.rng.range(6, 24);
+                    let before = tree.len();
+                    for i in 0..k {
+                        let target = if i + 1 == k { Self::rel_target(&par, &end) } else { format!("c{}", i + 1) };
+                        tree.push(Node { path: join(&par, &format!("c{}", i)), kind: Kind::Link { target }, mode: None });
+                    }
+                    let m = Model::from_tree(&tree).unwrap();
+                    let visits = m.traverse("", Link::ReadTarget, None);
+                    // no walked path may come near the kernel's limit of 40 followed links per
+                    // lookup (a path that passes through the chain more than once would make the
+                    // lookup of ordinary entries beneath it fail, which the model does not describe)
+                    let bad = visits.len() > 600
+                        || visits.iter().any(|v| m.hops(&v.path) > 30)
+                        || (links == LinkMode::Safe
+                            && visits.iter().any(|v| matches!(v.fault, Some(Fault::Cycle { .. }) | Some(Fault::Dangling) | Some(Fault::ELoop))));
+                    if bad {
+                        tree.truncate(before);
+                    }
+                }
             }
         }
         tree
@@ -639,6 +667,7 @@ impl<'a> Gen<'a> {
             let form = self.rng.weighted(&[30, 12, 8, 18, 10, 8]);
             let k = match form {
                 0..=2 => 1,
+                _ if self.rng.chance(1, 25) => self.rng.range(8, 20),
                 _ => self.rng.range(1, 3),
             };
             let texts: Vec<String> = (0..k + 1).map(|_| self.not_expr(model, base)).collect();
